@@ -11,6 +11,7 @@ EXTENDS ArpHunt, Json
 CONSTANTS T1, T2, T3, A1, A2,       \* the members of Targets / LanIPs by name
           MaxLoops, MaxDepth, Bounded, ExportEvery,
           WithOffer,                \* include SetDHCPv4IPOffer calls
+          NarrowES,                 \* TRUE: received packets always have Ethernet source = ARP sender (the big 3-loop configuration)
           RecvOps, RecvSI, RecvTI   \* received packets: operations, sender addresses, target addresses
 VARIABLES bad, depth, hist
 mcvars == <<hunt, loops, closed, offer, hostOf, pend, out, ev, refHunt, refClosed, refOffer, rl, poisoned, pre, bad, depth, hist>>
@@ -47,7 +48,8 @@ MCNext == (~Bounded \/ depth < MaxDepth) /\
         \/ ~closed /\ Tick(l) /\ Step([a |-> "tick", l |-> l])
         \/ WakeOnClose(l) /\ Step([a |-> "wake", l |-> l])
   \/ /\ RecvOps # {}
-     /\ \E op \in RecvOps, es \in Targets, sm \in Targets, si \in RecvSI, ti \in RecvTI :
+     /\ \E op \in RecvOps, sm \in Targets, si \in RecvSI, ti \in RecvTI :
+         \E es \in (IF NarrowES THEN {sm} ELSE Targets) :
            Recv(op, es, sm, si, ti) /\ Step([a |-> "recv", op |-> op, es |-> es, sm |-> sm, si |-> si, ti |-> ti])
 
 MCSpec == MCInit /\ [][MCNext]_mcvars
